@@ -168,6 +168,8 @@ theorem parse_ctxOk (hc : ConstsOk) (s : Str) : CtxOk (parse s).ctx :=
 def Plain (s : Str) : Prop :=
   ∀ c ∈ s, c ≠ Gen.boldChar ∧ c ≠ Gen.reverseChar ∧ c ≠ Gen.underlineChar ∧ c ≠ Gen.resetChar ∧ c ≠ Gen.colorChar
 
+instance (s : Str) : Decidable (Plain s) := by unfold Plain; exact inferInstance
+
 theorem foldl_step_plain (s : Str) (h : Plain s) : s.foldl step {} = {} := by
   induction s with
   | nil => rfl
